@@ -550,7 +550,7 @@ theorem objectFields_count (env : Env) (p : Partial) (es : List (V × V)) (shape
 def unkOK (env : Env) (mode : Mode) (catchall : Option Mid) (x : V) : Bool :=
   match mode with
   | .strict => false
-  | .strip => true
+  | .strip => optAcc env catchall x      -- /repo 507cd5d: the catch-all validates unknown keys in strip mode too
   | .passthrough => optAcc env catchall x
 
 theorem objectUnknown_nil (env : Env) (shape : List Field) (mode : Mode) (c : Option Mid)
@@ -570,7 +570,12 @@ theorem objectUnknown_nil (env : Env) (shape : List Field) (mode : Mode) (c : Op
     · simp only [hk, Bool.false_eq_true, ↓reduceIte, Bool.not_eq_true, forall_const, unkOK]
       cases mode with
       | strict => simp
-      | strip => simp
+      | strip =>
+        cases c with
+        | none => simp [optAcc]
+        | some cm =>
+          simp only [optAcc, acc]
+          cases env cm x <;> simp
       | passthrough =>
         cases c with
         | none => simp [optAcc]
@@ -601,7 +606,14 @@ theorem objectUnknown_count (env : Env) (shape : List Field) (mode : Mode) (c : 
       have he' := he hk
       cases mode with
       | strict => simp [unkOK] at he'
-      | strip => simp [hr]
+      | strip =>
+        cases c with
+        | none => simp [hr]
+        | some cm =>
+          simp only [unkOK, optAcc, acc] at he'
+          cases hx : env cm x with
+          | ok r => simp [hx, hr]
+          | err i t => simp [hx] at he'
       | passthrough =>
         cases c with
         | none => simp [hr]
@@ -682,13 +694,20 @@ def c02_object_catchall_full : Prop :=
     (run cfg env (.object m shape .strip (some c) p []) (.map .str .any (some es))).isOk = true →
       ∀ e ∈ es, isKnown shape e.1 = false → acc env c e.2 = true
 
-/-- `Object{…}.WithCatchall(Int())` in the default strip mode accepts an unknown key whose value the
-    catchall rejects (the catchall is only consulted in passthrough mode). -/
-theorem c02_object_catchall_false : ¬ c02_object_catchall_full := by
-  intro h
-  have := h {} (fun _ _ => .err (mk .invalidType []) []) {} [] 0 {} [(.atom .str 1, .atom .str 2)]
-    (by decide) _ (List.mem_cons_self ..) (by decide)
-  revert this; decide
+/-- Since /repo 507cd5d `Object{…}.WithCatchall(S)` in the default strip mode validates every unknown key against the
+    catch-all (before: only passthrough mode consulted it; witness `Object{}.WithCatchall(Int()).Parse({b:'x'})` accepted). -/
+theorem c02_object_catchall : c02_object_catchall_full := by
+  intro cfg env m shape c p es h e he hk
+  have hv : (V.map .str .any (some es)).isNilLike = false := rfl
+  obtain ⟨es', hx, _, hu, _⟩ := (c02_object cfg env m shape .strip (some c) p [] _ hv).mp h
+  have hes : es' = es := by
+    simp only [extractObject] at hx
+    first
+      | exact (Option.some.inj hx).symm
+      | (injection hx with hx; exact hx.symm)
+  subst hes
+  have := hu e he hk
+  simpa [unkOK, optAcc] using this
 
 /-! ### record -/
 
